@@ -246,7 +246,15 @@ let spec (input : string) (obs : string) : string =
   else if obs = "MISSING" then "FAIL no-observable"
   else
     match split_on ' ' input with
-    | ["L"; _; _; _] -> if obs = "" then "FAIL malformed-observable" else "OK"
+    | ["L"; pver; _; cmd] ->
+      (* every well-formed message must fit the implementation's own MaxPayloadLength of its type *)
+      (match split_on ' ' obs with
+       | [limit; _] ->
+         (match WireSpec.max_wf_payload_len (kind_of_string cmd) (n_of_string pver) with
+          | Some n when Z.lt (Z.of_string limit) (Z.of_string (dec_of_n n)) ->
+            Printf.sprintf "FAIL limit-below-wellformed-%s MaxPayloadLength %s is below the longest well-formed %s payload (%s bytes) at this protocol version" cmd limit cmd (dec_of_n n)
+          | _ -> "OK")
+       | _ -> "FAIL malformed-observable")
     | ["P"; pver; ebs; ms] | ["F"; pver; ebs; _; ms] ->
       let framed = input.[0] = 'F' in
       let pver = n_of_string pver and ebs = n_of_string ebs in
@@ -257,7 +265,11 @@ let spec (input : string) (obs : string) : string =
       else (match split_on '|' obs with
           | [e; d] ->
             if starts_with "E:" e then
-              (if framed && (e = "E:oversize" || e = "E:typemax") then "OK"
+              (* WriteMessage may refuse a well-formed message only because the configured global maximum is
+                 below what the type allows (C14_frame_roundtrip_total); never because of the type's limit *)
+              (if framed && e = "E:oversize" &&
+                  (WireMsg.kind_of m = WireMsg.KReject || BinNat.N.ltb mmp (WireMsg.max_payload (WireMsg.kind_of m) pver ebs))
+               then "OK"
                else "FAIL roundtrip-" ^ kind ^ " a well-formed message was refused by the encoder: " ^ e)
             else
               let want = ms ^ (if framed then "" else " rem=0") in
